@@ -37,7 +37,18 @@ struct Pass1 {
 
 }  // namespace
 
+static void engine_fault_impl(RunCtx& cx);
+
 void sim::engine_fault(RunCtx& cx) {
+    // Whatever property the check is run for (C16, or C02/C10/C13/C15 which add a fault stage), the scenarios come from the
+    // same family (profile P_FAULT, selected through the property name the plan generator sees); the seeds still differ.
+    std::string asked = cx.prop;
+    cx.prop = "C16";
+    try { engine_fault_impl(cx); } catch (...) { cx.prop = asked; throw; }
+    cx.prop = asked;
+}
+
+static void engine_fault_impl(RunCtx& cx) {
     Counters scratch_ctr;
     // ---- pass 1: fault-free ----------------------------------------------------------------------
     Pass1 p1;
